@@ -52,9 +52,38 @@ def static_attribute_names(tree):
     return ok
 
 
+def read_only_introspection(tree):
+    """ids of `vars(x)` calls that are only *read*: `vars(x).values()/.items()/.keys()/.get(..)`, `for .. in vars(x)`, `.. in
+    vars(x)`, `len(vars(x))`.  Reading the attribute dictionary does not change what attributes exist."""
+    ok = set()
+    parents = {}
+    for n in ast.walk(tree):
+        for c in ast.iter_child_nodes(n):
+            parents[id(c)] = n
+    for n in ast.walk(tree):
+        if isinstance(n, ast.Call) and isinstance(n.func, ast.Name) and n.func.id == 'vars' and len(n.args) == 1:
+            p = parents.get(id(n))
+            if isinstance(p, ast.Attribute) and p.attr in ('values', 'items', 'keys', 'get', 'copy') and \
+                    isinstance(parents.get(id(p)), ast.Call):
+                ok.add(id(n))
+            elif isinstance(p, (ast.For, ast.comprehension)) and p.iter is n:
+                ok.add(id(n))
+            elif isinstance(p, ast.Compare) and n in p.comparators:
+                ok.add(id(n))
+            elif isinstance(p, ast.Call) and isinstance(p.func, ast.Name) and p.func.id in ('len', 'list', 'sorted', 'dict'):
+                ok.add(id(n))
+    return ok
+
+
 def dynamic_constructs(tree):
     out = []
-    static_ok = static_attribute_names(tree)
+    static_ok = static_attribute_names(tree) | read_only_introspection(tree)
+    enum_names = {'Enum', 'IntEnum', 'Flag', 'IntFlag'}
+    for n in ast.walk(tree):            # `parent = Enum` (the Python-2 fallback idiom of core/Space.py)
+        if isinstance(n, ast.Assign) and isinstance(n.value, ast.Name) and n.value.id in enum_names:
+            for t in n.targets:
+                if isinstance(t, ast.Name):
+                    enum_names.add(t.id)
     for n in ast.walk(tree):
         if isinstance(n, ast.Call) and isinstance(n.func, ast.Name) and n.func.id in _DYN_CALLS:
             if id(n) in static_ok:
@@ -64,6 +93,14 @@ def dynamic_constructs(tree):
             out.append((n.lineno, 'definition of %s' % n.name))
         elif isinstance(n, ast.ClassDef) and any(k.arg == 'metaclass' for k in n.keywords):
             out.append((n.lineno, 'metaclass on %s' % n.name))
+        elif isinstance(n, ast.ClassDef) and any(ast.unparse(b).split('.')[-1] in enum_names for b in n.bases):
+            # enumeration members are modelled as plain constants compared by identity/value: an enumeration that redefines
+            # comparison, hashing or truth makes `space == Space.Real` mean something else
+            for x in n.body:
+                # (__eq__ / __ne__ are interpreted: Interp.enum_method)
+                if isinstance(x, ast.FunctionDef) and x.name in ('__bool__', '__lt__', '__le__', '__gt__', '__ge__', '__contains__',
+                                                                  '_missing_', '__getattr__'):
+                    out.append((x.lineno, 'enumeration %s redefines %s' % (n.name, x.name)))
         elif isinstance(n, ast.Attribute) and n.attr in ('__dict__', '__class__') and isinstance(n.ctx, ast.Store):
             out.append((n.lineno, 'store to %s' % n.attr))
     return out
